@@ -614,6 +614,14 @@ def check(ctx: Ctx) -> None:
         ctx.violation("R19.5", "format_text:dispatch", f"{CLI}.utility", ft.node, f"format_text must write csv/tex/md/json with to_csv/to_latex/to_markdown/to_json of the frame it was given (found {disp})")
     ge = model.fi(f"{CLI}.utility", "get_text_extension")
     d = [n for n in walk_ordered(ge.node) if isinstance(n, ast.Dict)]
+    if not d:
+        # the alias table may be a module-level constant: the mapping whose .get(fmt, fmt) is taken
+        from ..elements import module_consts as _mc
+        for c_ in calls_in(ge.node):
+            if isinstance(c_.func, ast.Attribute) and c_.func.attr == "get" and isinstance(c_.func.value, ast.Name):
+                tv = _mc(ctx.repo, f"{CLI}.utility").get(c_.func.value.id)
+                if isinstance(tv, ast.Dict):
+                    d = [tv]
     ctx.instance("R19.5", "format aliases latex→tex, markdown→md, others unchanged")
     if len(d) == 1 and {k.value: v.value for k, v in zip(d[0].keys, d[0].values)} == {"latex": "tex", "markdown": "md"} and ".get(fmt, fmt)" in norm(ge.node):
         ctx.ok()
